@@ -395,13 +395,14 @@ func (t *State) PlayForMiner(blockid []byte) error {
 	if blockErr != nil {
 		return blockErr
 	}
+	t.utxo.Mutex.Lock()
+	defer t.utxo.Mutex.Unlock() // lock guard
+	// 必须在持有状态机锁之后再比较latestBlockid: 等锁期间其他Walk/Play可能已经移动了状态机
 	if !bytes.Equal(block.PreHash, t.latestBlockid) {
 		t.log.Warn("play for miner failed", "block.PreHash", utils.F(block.PreHash),
 			"latestBlockid", fmt.Sprintf("%x", t.latestBlockid))
 		return ErrPreBlockMissMatch
 	}
-	t.utxo.Mutex.Lock()
-	defer t.utxo.Mutex.Unlock() // lock guard
 	var err error
 	defer func() {
 		if err != nil {
